@@ -46,9 +46,7 @@ def _worker_run(item):
 
     try:
         res = _MOD.run_case(case)
-    except util.HarnessError:
-        raise
-    except Exception:  # an unexpected exception inside the harness itself
+    except Exception:  # an unexpected exception inside the harness itself (incl. HarnessError)
         res = dict(harness_error=traceback.format_exc())
     res["idx"] = idx
     util.cleanup_scratch(keep_root=True)
